@@ -520,6 +520,8 @@ class Fn:
                     cur = ('deref', cur)
             elif k == 'field':
                 nm = e.get('n', str(e['i']))
+                if '{closure' in e.get('adt', ''):
+                    nm = str(e['i'])  # closure captures are addressed by position (matches the closure aggregate's operands)
                 # field of a known aggregate -> the operand
                 if cur[0] == 'agg' and e['i'] < len(cur[2]) and cur[1] in ('tuple',) :
                     cur = cur[2][e['i']]
